@@ -202,7 +202,12 @@ def write_evidence(prop, tier, seed, per_unit, n_ob, n_dis, nb_ob, nb_dis, wall,
     for r in res:
         u = r["unit"]
         for q in getattr(u, "replace", []):
-            trusted.add("callee replaced by its contract (enforced in its own unit): " + q)
+            if u.back_end.startswith("BV"):
+                trusted.add("callee replaced by its contract (enforced in its own unit): " + q)
+            else:
+                trusted.add("contract / fact applied at this boundary (see the unit that enforces it, or the assumptions): " + q)
+        for q in getattr(u, "auto_inlined", []) or []:
+            trusted.add("free helper function inlined automatically with its real body: " + q)
         if u.kind == "bounded":
             assumptions.append("BOUNDED (not proved): %s with bound %s" % (u.label, u.bound))
         for n in getattr(u, "assumes", []):
